@@ -8,20 +8,25 @@ from ..flow import Flow
 from ..model import AnalysisError, Cls, Func, Program, walk_own
 from ..report import Report
 from ..resolve import const_value, dotted, kwarg
-from ..util import before, calls_in, ext_name, open_mode, returns_of, src
+from ..util import before, calls_in, ext_name, iter_stores, open_mode, returns_of, src
 from .filefam import Family, run_typestate
 
 
 def run(prog: Program, rep: Report, include_mixins: bool = True):
     fam = Family(prog)
     rep.count("classes", len(fam.line_classes))
-    r1_newline(prog, rep, fam)
-    r2_cursor(prog, rep, fam, include_mixins)
-    r3_terminator(prog, rep, fam)
-    r3b_raw_reader(prog, rep, fam)
-    r4_dispatch(prog, rep, fam)
-    r5_index(prog, rep, fam)
-    r6_derived(prog, rep, fam, include_mixins)
+    rep.attempt(lambda: r1_newline(prog, rep, fam))
+    rep.attempt(lambda: r2_cursor(prog, rep, fam, include_mixins))
+    rep.attempt(lambda: r3_terminator(prog, rep, fam))
+    rep.attempt(lambda: r3b_raw_reader(prog, rep, fam))
+    rep.attempt(lambda: r4_dispatch(prog, rep, fam))
+    rep.attempt(lambda: r5_index(prog, rep, fam))
+    rep.attempt(lambda: r6_derived(prog, rep, fam, include_mixins))
+    from .mixins import MIXIN_METHODS, rule_fresh_iterator, rule_mixin_surface
+    rep.attempt(lambda: rule_mixin_surface(prog, rep, "C11.R7", fam.line_classes, analysed={(fam.base.name, "__iter__")},
+                                           names=set(MIXIN_METHODS["Sequence"])))
+    rep.attempt(lambda: rule_fresh_iterator(prog, rep, "C11.R8", [fam.base]))
+    rep.attempt(lambda: r9_index_source(prog, rep, fam))
 
 
 # ---------------------------------------------------------------------------------------------- R1
@@ -38,7 +43,33 @@ def data_path_field(prog: Program, fam: Family) -> str:
                         d = dotted(c2.args[0])
                         if d and len(d) == 2 and d[0] == f.self_name:
                             return d[1]
+    b = _builder_by_table(prog, fam)
+    if b is not None:
+        return b[1]
     raise AnalysisError("index builder (binary open + tell) not found in the line-file family")
+
+
+def _builder_by_table(prog: Program, fam: Family):
+    """(method, path field) of the method that opens self.<path> and fills the offset table (whatever way it computes the offsets)"""
+    try:
+        lines_field = _lines_field(prog, fam)
+    except AnalysisError:
+        return None
+    for c in fam.line_classes:
+        for k in c.repo_mro():
+            for f in k.methods.values():
+                if f.self_name is None or f.name in ("__init__", "open", "__enter__"):
+                    continue
+                writes = any(isinstance(n, ast.Attribute) and n.attr == lines_field and isinstance(n.value, ast.Name)
+                             and n.value.id == f.self_name and isinstance(n.ctx, ast.Store) for n in ast.walk(f.node))
+                if not writes:
+                    continue
+                for c2 in calls_in(f.node):
+                    if ext_name(prog, f, c2) == "open" and c2.args:
+                        d = dotted(c2.args[0])
+                        if d and len(d) == 2 and d[0] == f.self_name:
+                            return f, d[1]
+    return None
 
 
 def r1_newline(prog, rep: Report, fam: Family):
@@ -430,16 +461,96 @@ def _lines_field(prog, fam: Family) -> str:
     raise AnalysisError("__len__ of the line files does not return len(self.<offset table>)")
 
 
+def r9_index_source(prog, rep: Report, fam: Family):
+    """a caller-supplied offset index (also an empty one) is never replaced by the self-built index"""
+    rep.rule("C11.R9", "the caller's index is honoured: every call of the index builder is guarded by `<offsets> is None` (the parameter "
+             "or the table field); a guard that reads the table as a truth value (`not self._lines`, `len(...) == 0`) also fires for "
+             "an empty caller-supplied index and is a violation", floor=1)
+    b = _builder_by_table(prog, fam)
+    if b is None:
+        raise AnalysisError("index builder not found (C11.R9)")
+    builder, _ = b
+    lines_field = _lines_field(prog, fam)
+    n = 0
+    seen = set()
+    for c in fam.line_classes:
+        for k in c.repo_mro():
+            if k.is_external:
+                continue
+            for f in k.methods.values():
+                if f is builder or f.qual in seen:
+                    continue
+                seen.add(f.qual)
+                for call in calls_in(f.node):
+                    if not (isinstance(call.func, ast.Attribute) and call.func.attr == builder.name
+                            and isinstance(call.func.value, ast.Name) and call.func.value.id == f.self_name):
+                        continue
+                    n += 1
+                    rep.fn(f)
+                    role = f"index-source:{k.name}.{f.name}:{n}"
+                    # offsets parameter(s) of this method that are stored into the table
+                    table_like = {f"{f.self_name}.{lines_field}"}
+                    for t, v, _st in iter_stores(f.node):
+                        if dotted(t) == (f.self_name, lines_field) and v is not None:
+                            # the parameter(s) the table is filled from (also through a conditional expression / a reader call)
+                            table_like |= {x.id for x in ast.walk(v) if isinstance(x, ast.Name) and x.id in f.params[1:]}
+                    guards = []
+                    child, anc = call, getattr(call, "_parent", None)
+                    while anc is not None and anc is not f.node:
+                        if isinstance(anc, ast.If) and child is not anc.test:
+                            guards.append((anc.test, child in anc.body))
+                        child, anc = anc, getattr(anc, "_parent", None)
+                    verdict = None
+                    for t, pol in guards:
+                        neg = False
+                        while isinstance(t, ast.UnaryOp) and isinstance(t.op, ast.Not):
+                            t, neg = t.operand, not neg
+                        holds = pol != neg           # the call runs when `t` is `holds`
+                        if isinstance(t, ast.Compare) and len(t.ops) == 1 and isinstance(t.comparators[0], ast.Constant) \
+                                and t.comparators[0].value is None and src(t.left) in table_like:
+                            is_none = isinstance(t.ops[0], ast.Is)
+                            if is_none == holds:
+                                verdict = verdict or ("ok", f"guarded by `{src(t)}`")
+                            else:
+                                verdict = ("viol", f"the builder runs when `{src(t.left)}` is NOT None: the caller's index is replaced")
+                        elif src(t) in table_like and not holds:
+                            verdict = ("viol", f"the builder runs when `{src(t)}` is falsy: an empty caller-supplied index (no line "
+                                               "selected) is replaced by the index of the whole file")
+                        elif isinstance(t, ast.Compare) and len(t.ops) == 1 and isinstance(t.left, ast.Call) and src(t.left.func) == "len" \
+                                and t.left.args and src(t.left.args[0]) in table_like and isinstance(t.comparators[0], ast.Constant) \
+                                and t.comparators[0].value == 0 and isinstance(t.ops[0], (ast.Eq, ast.LtE)) and holds:
+                            verdict = ("viol", f"the builder runs when `{src(t)}`: an empty caller-supplied index is replaced by the index "
+                                               "of the whole file")
+                    if verdict is None:
+                        rep.unrec("C11.R9", f, role, f"the call of {builder.name}() is not guarded by a recognised test of the offsets "
+                                  f"(guards: {[src(t) for t, _ in guards]})", line=call.lineno)
+                    elif verdict[0] == "ok":
+                        rep.ok("C11.R9", f, role, verdict[1])
+                    else:
+                        rep.viol("C11.R9", f, role, verdict[1],
+                                 scenario="RandomLineAccessFile(path, line_offsets=[]) must be an empty sequence; with the change it "
+                                          "exposes every line of the file after open()", line=call.lineno)
+    if n == 0:
+        rep.unrec("C11.R9", builder, "index-source", f"no call of {builder.name}() found")
+
+
 # ---------------------------------------------------------------------------------------------- R5
-def r5_index(prog, rep: Report, fam: Family):
-    rep.rule("C11.R5", "index construction: offsets start at [0], tell() is recorded after every readline() of a "
-             "binary handle and the last entry is dropped; the index-file reader yields one int per line; "
-             "len is the length of the offset table", floor=3)
+def r5_index(prog, rep: Report, fam: Family, rule: str = "C11.R5", only_binary: bool = False):
+    if only_binary:
+        # instantiated under a sibling property: only the clause "the offsets are byte positions of a binary handle" (what the
+        # builder does with them is C11.R5's business, and is reported there)
+        rep.rule(rule, "the offset index the lines are read through holds byte positions: the index builder opens the data file in "
+                 "binary mode (lengths / positions of a text handle are character counts); the other clauses of the index "
+                 "construction are decided under C11.R5", floor=1)
+    else:
+        rep.rule(rule, "index construction: offsets start at [0], tell() is recorded after every readline() of a "
+                 "binary handle and the last entry is dropped; the index-file reader yields one int per line; "
+                 "len is the length of the offset table", floor=3)
     lines_field = _lines_field(prog, fam)
     c0 = fam.line_classes[0]
     flen = prog.resolve(c0, "__len__")
     rep.fn(flen)
-    rep.ok("C11.R5", flen, "len", f"__len__ returns len(self.{lines_field})")
+    rep.ok(rule, flen, "len", f"__len__ returns len(self.{lines_field})")
     # builder
     builder = None
     for k in c0.repo_mro():
@@ -449,6 +560,9 @@ def r5_index(prog, rep: Report, fam: Family):
             if any(isinstance(c.func, ast.Attribute) and c.func.attr == "tell" for c in calls_in(f.node)) and \
                     any(ext_name(prog, f, c) == "open" for c in calls_in(f.node)):
                 builder = f
+    if builder is None:
+        b_ = _builder_by_table(prog, fam)
+        builder = b_[0] if b_ else None
     if builder is None:
         raise AnalysisError("index builder not found")
     rep.fn(builder)
@@ -526,11 +640,42 @@ def r5_index(prog, rep: Report, fam: Family):
             uncond = all(getattr(a, "_parent", None) is not None and isinstance(a._parent, ast.Expr)
                          and a._parent in n.body for a in appends)
             loop_ok = reads_line and tells and uncond and len(appends) == 1
-    if scheme_b is None:
-        rep.check("C11.R5", f, "builder:binary", binary, "index built from a binary handle",
-                  "the index builder does not open the data file in binary mode (tell() on a text handle is not a byte offset)",
-                  scenario="multi-byte UTF-8 content")
-    if scheme_b is not None:
+    no_tell = not any(isinstance(c_.func, ast.Attribute) and c_.func.attr == "tell" for c_ in calls_in(f.node))
+    if only_binary:
+        encodes = any(isinstance(c_, ast.Call) and isinstance(c_.func, ast.Attribute) and c_.func.attr == "encode" for c_ in ast.walk(f.node))
+        if binary:
+            rep.ok(rule, f, "builder:binary", "index built from a binary handle")
+        elif not encodes and handle_var is not None:
+            rep.viol(rule, f, "builder:binary", "the index builder does not open the data file in binary mode: positions / lengths "
+                     "taken from a text handle are character counts (or opaque cookies), not the byte offsets that seek() is given",
+                     scenario="a line with a multi-byte UTF-8 character shifts every later offset: f[i] starts inside another line")
+        else:
+            rep.unrec(rule, f, "builder:binary", "the mode of the handle the index is built from was not found")
+        return
+    if no_tell:
+        # offsets computed some other way (lengths of the lines read, a running sum ...): the only thing decided here is that
+        # lengths / positions of a *text* handle are not byte offsets; the arithmetic itself is not read
+        encodes = any(isinstance(c_, ast.Call) and isinstance(c_.func, ast.Attribute) and c_.func.attr == "encode" for c_ in ast.walk(f.node))
+        if not binary and not encodes and handle_var is not None:
+            rep.viol(rule, f, "builder:binary", "the index builder does not open the data file in binary mode: positions / lengths "
+                     "taken from a text handle are character counts (or opaque cookies), not the byte offsets that seek() is given",
+                     scenario="a line with a multi-byte UTF-8 character shifts every later offset: f[i] starts inside another line")
+        else:
+            rep.unrec(rule, f, "builder:binary", "the index builder does not record tell() positions: how it computes the offsets is "
+                      "not something this rule reads")
+        scheme_b = "skip"
+    elif scheme_b is None and not binary and any(isinstance(c, ast.Call) and isinstance(c.func, ast.Attribute) and c.func.attr == "encode"
+                                               for c in ast.walk(f.node)):
+        rep.unrec(rule, f, "builder:binary", "the index builder reads a text handle and encodes what it read: whether the offsets "
+                  "are byte positions of the file is not decided")
+    elif scheme_b is None:
+        rep.check(rule, f, "builder:binary", binary, "index built from a binary handle",
+                  "the index builder does not open the data file in binary mode: positions / lengths taken from a text handle are "
+                  "character counts (or opaque cookies), not the byte offsets that seek() is given",
+                  scenario="a line with a multi-byte UTF-8 character shifts every later offset: f[i] starts inside another line")
+    if scheme_b == "skip":
+        pass
+    elif scheme_b is not None:
         # start offsets: judged as a whole; anything but the exact idiom is left undecided
         lp, app, defs_ = scheme_b
         body = lp.body
@@ -545,30 +690,31 @@ def r5_index(prog, rep: Report, fam: Family):
             and isinstance(body[0], ast.Expr) and body[0].value is app and body[1] is inside[0] \
             and isinstance(init_seen, ast.List) and not init_seen.elts and not drop_ok \
             and before(f.node, outside[0], lp)
-        rep.check("C11.R5", f, "builder:binary", binary, "index built from a binary handle",
-                  "the index builder does not open the data file in binary mode (tell() on a text handle is not a byte offset)",
-                  scenario="multi-byte UTF-8 content")
+        rep.check(rule, f, "builder:binary", binary, "index built from a binary handle",
+                  "the index builder does not open the data file in binary mode: positions / lengths taken from a text handle are "
+                  "character counts (or opaque cookies), not the byte offsets that seek() is given",
+                  scenario="a line with a multi-byte UTF-8 character shifts every later offset: f[i] starts inside another line")
         for role in ("builder:first-offset", "builder:loop", "builder:drop-last"):
             if exact:
-                rep.ok("C11.R5", f, role, "start offsets: the position is taken before each readline and recorded when the line exists")
+                rep.ok(rule, f, role, "start offsets: the position is taken before each readline and recorded when the line exists")
             else:
-                rep.unrec("C11.R5", f, role, "the builder records positions taken before the reads, but not in the one recognised way "
+                rep.unrec(rule, f, role, "the builder records positions taken before the reads, but not in the one recognised way "
                           "(start = h.tell(); for _ in iter(h.readline, b''): table.append(start); start = h.tell())")
     elif init_seen is not None and not isinstance(init_seen, (ast.List, ast.Tuple, ast.Constant)):
-        rep.unrec("C11.R5", f, "builder:first-offset", f"the offset table is initialised from `{src(init_seen)}`")
+        rep.unrec(rule, f, "builder:first-offset", f"the offset table is initialised from `{src(init_seen)}`")
     else:
-        rep.check("C11.R5", f, "builder:first-offset", init_ok, "offset table starts as [0]",
+        rep.check(rule, f, "builder:first-offset", init_ok, "offset table starts as [0]",
                   "offset table does not start with [0]", scenario="line 0 is unreachable or shifted")
     if scheme_b is not None:
         pass
     elif loop_ok is None:
-        rep.unrec("C11.R5", f, "builder:loop", "no loop appending tell() after a readline() found")
+        rep.unrec(rule, f, "builder:loop", "no loop appending tell() after a readline() found")
     else:
-        rep.check("C11.R5", f, "builder:loop", loop_ok, "tell() appended once after every readline()",
+        rep.check(rule, f, "builder:loop", loop_ok, "tell() appended once after every readline()",
                   "the scan loop does not append exactly one <handle>.tell() after every readline() of the same handle",
                   scenario="offsets skip or duplicate lines")
     if scheme_b is None:
-        rep.check("C11.R5", f, "builder:drop-last", drop_ok, "the offset past the last line is dropped",
+        rep.check(rule, f, "builder:drop-last", drop_ok, "the offset past the last line is dropped",
                   "the end-of-file offset is not dropped", scenario="len(f) is one too large; f[-1] == ''")
     # index-file reader
     rdr = None
@@ -578,7 +724,7 @@ def r5_index(prog, rep: Report, fam: Family):
                     and any(isinstance(c.func, ast.Name) and c.func.id == "int" for c in calls_in(g.node)):
                 rdr = g
     if rdr is None:
-        rep.unrec("C11.R5", (c0.relpath, c0.short, 0), "index-file-reader", "static index-file reader not found")
+        rep.unrec(rule, (c0.relpath, c0.short, 0), "index-file-reader", "static index-file reader not found")
     else:
         rep.fn(rdr)
         good = False
@@ -597,7 +743,7 @@ def r5_index(prog, rep: Report, fam: Family):
                     and len(v.elt.args) == 1 and isinstance(v.elt.args[0], ast.Name) \
                     and isinstance(v.generators[0].target, ast.Name) and v.elt.args[0].id == v.generators[0].target.id:
                 good = True
-        rep.check("C11.R5", rdr, "index-file-reader", good, "one int per line of the index file, unfiltered",
+        rep.check(rule, rdr, "index-file-reader", good, "one int per line of the index file, unfiltered",
                   "index-file reader is not an unfiltered [int(line) for line in f]",
                   scenario="an index file selecting a subset/permutation is not honoured line by line")
 
